@@ -150,6 +150,19 @@ Theorem C16_abf_site_incremental_eq_batch_3d : forall (T : Type) (O : NumOps T) 
 Proof. intros T O sc sm sh same st0 pre l. exact (abf_site_incremental_eq_batch3 O sc sm sh same st0 pre l). Qed.
 Print Assumptions C16_abf_site_incremental_eq_batch_3d.
 
+(* smoothed gradients inside the divergence: the gradient that every stencil reads from a bin is the accumulated sum
+   times out_fact(count) (C16_1d_smoothed_value gives the ramp); in particular a bin at or below minSamples reads as zero
+   whatever its neighbours hold, so that under-sampled bins next to well-sampled ones do not leak noise *)
+Theorem C16_smoothed_gradient_below_min_is_zero_2d : forall (sc : smooth_cfg) (sh : shape2 (T:=R)) (st : state2 (T:=R)) (ix : Z * Z),
+  s_has_samples sc = true -> (gcnt2 st (snd (wde2 sh ix)) <= s_min sc)%Z -> gval2 Rops sc true sh st ix = (0%R, 0%R).
+Proof. exact gval2_below_min. Qed.
+Print Assumptions C16_smoothed_gradient_below_min_is_zero_2d.
+
+Theorem C16_smoothed_gradient_below_min_is_zero_3d : forall (sc : smooth_cfg) (sh : shape3 (T:=R)) (st : state3 (T:=R)) (ix : Z * Z * Z),
+  s_has_samples sc = true -> (gcnt3 st (snd (wde3 sh ix)) <= s_min sc)%Z -> gval3 Rops sc true sh st ix = (0%R, 0%R, 0%R).
+Proof. exact gval3_below_min. Qed.
+Print Assumptions C16_smoothed_gradient_below_min_is_zero_3d.
+
 (* what "batch" means: set_div stores at every PMF point the divergence of the current gradient data *)
 Theorem C16_set_div_is_divergence_2d : forall (T : Type) (O : NumOps T) (sc : smooth_cfg) (sm : bool) (sh : shape2 (T:=T))
     (st : state2 (T:=T)) (p : Z * Z),
